@@ -5,7 +5,9 @@
   (`fix:` db0baa0 quantifier over a variable-initial atomic formula, 3af4e16 keyword word
   boundary). Proved here: the printer facts behind the first fix and the associativity /
   mandatory-parentheses rules of the mixed level `<->`, `->`, `<-`.
-  Known finding: a comparison directly before `<-` (`1 < 2 <- 3 > 2` is read as `1 < 2 < -3 > 2`).
+  A third defect (text beginning with a comparison after `<-`: `p <- X$i > 3` was read as the
+  comparison `p < -X$i > 3`) was repaired later (`fix:` right operand of `<-` parenthesised when it
+  begins with a comparison).
 -/
 import AnthemModel.Model.Print
 namespace Anthem.C15
@@ -43,10 +45,21 @@ example : Formula.print (.bin .and (.atomic (.atom ⟨"a", []⟩))
 example : Formula.print (.not (.bin .or (.atomic (.atom ⟨"a", []⟩)) (.not (.atomic (.atom ⟨"b", []⟩))))) =
     "not (a or not b)" := by decide
 
-/-- Counterexample to the unconditional round trip (known finding): nothing separates a
-    comparison from a following `<-`. -/
-theorem comparison_before_reverse_implication :
-    Formula.print (.bin .rimp (.atomic (.cmp (.int (.num 1)) [⟨.lt, .int (.num 2)⟩]))
-      (.atomic (.cmp (.int (.num 3)) [⟨.gt, .int (.num 2)⟩]))) = "1 < 2 <- 3 > 2" := by decide
+/-- After the repair: a right operand of `<-` that begins with a comparison is parenthesised, so
+    the text after `<-` never starts a term (`1 < 2 <- 3 > 2` used to be read as `1 < 2 < -3 > 2`). -/
+theorem comparison_after_reverse_implication (l r : Formula) (h : r.beginsWithComparison = true) :
+    Formula.print (.bin .rimp l r) =
+      parenIf (l.mandatory || (Formula.bin .rimp l r).prec < l.prec ||
+        ((Formula.bin .rimp l r).prec = l.prec && l.rightAssoc)) l.print ++ " <- " ++
+        "(" ++ r.print ++ ")" := by
+  rw [Formula.print]
+  simp only [h, parenIf, Conn.print, Bool.and_true, Bool.true_or, decide_true, if_true,
+    String.append_assoc]
+
+example : Formula.print (.bin .rimp (.atomic (.cmp (.int (.num 1)) [⟨.lt, .int (.num 2)⟩]))
+      (.atomic (.cmp (.int (.num 3)) [⟨.gt, .int (.num 2)⟩]))) = "1 < 2 <- (3 > 2)" := by decide
+example : Formula.print (.bin .rimp (.atomic (.atom ⟨"p", []⟩))
+      (.bin .and (.atomic (.cmp (.int (.var "X")) [⟨.gt, .int (.num 3)⟩])) (.atomic (.atom ⟨"q", []⟩)))) =
+    "p <- (X$i > 3 and q)" := by decide
 
 end Anthem.C15
